@@ -140,6 +140,16 @@ inductive Validity where
   | some (s : List String)
   deriving Repr
 
+/-- `which.iter().any(|other| self.memoize_register(other) == Some(canonical))` — some element of
+    the set has the canonical name `r` (short-circuiting like `Iterator::any`; `memoize_register`
+    never panics — theorem `memoize_total` — so the hash set's iteration order is immaterial) -/
+def anyMemoIs (c : Ctx) (r : String) : List String → Outcome Bool
+  | [] => .ok false
+  | o :: t =>
+    match memoize c o with
+    | .panic s => .panic s
+    | .ok m => if m = some r then .ok true else anyMemoIs c r t
+
 /-- `register_is_valid` (trait default or the context's override) -/
 def isValid (c : Ctx) (n : String) : Validity → Outcome Bool
   | .all =>
@@ -158,6 +168,13 @@ def isValid (c : Ctx) (n : String) : Validity → Outcome Bool
       else
         match memoize c n with
         | .ok (some r) => .ok (S.contains r)
+        | .ok none => .ok false
+        | .panic s => .panic s
+    | .sparcCanon =>
+      if S.contains n then .ok true
+      else
+        match memoize c n with
+        | .ok (some r) => anyMemoIs c r S
         | .ok none => .ok false
         | .panic s => .panic s
 
